@@ -21,6 +21,19 @@ CLAIMED = {
          "Frozen exception: server4 skips a peer that is not *net.UDPAddr.", "§5 C14"),
 }
 
+CLAIMED["C08"] = ("heap-effect (points-to/retention) summaries over SSA, context-sensitive on function-valued arguments (engine E3)",
+         "For every decoder of dhcpv4/dhcpv6/iana/rfc1035label (selected by signature: takes []byte or *uio.Lexer, returns error) the analysis shows that no alias "
+         "of the input can stay reachable from the receiver, another parameter, a result or a global, on any path of the whole call-graph closure; and that the three "
+         "message-level ToBytes results are memory allocated during the call. This is a sound over-approximation of the whole aliasing clause (modulo the trusted models), "
+         "filed under 'other' because the analyser is unverified. The observable consequences in the statement follow from the absence of aliasing.",
+         "FromBytesWithParser with a caller-supplied parser and vendParseOption are judged through their in-repo callers only.", "§5 C08, §4 E3")
+CLAIMED["C20"] = ("heap-effect (mutation) summaries over SSA with type-tagged write events (engine E3) + call-graph scan for clock/random sources",
+         "For every exported method of the codec packages outside the mutator table (FromBytes*, Unmarshal, Add*, Del*, Update*, Set*, Remove*) and for the read-only helper "
+         "functions (builders from a packet, decapsulation, ExtractMAC, ztp/netboot extractors) the analysis shows that no instruction in the call-graph closure writes memory "
+         "reachable from the receiver / inputs (pre-state) or a global, and that the closure consults no clock or random source. Sound over-approximation of the clause "
+         "'reading never changes the value'; equality of repeated results follows from purity + determinism. Level 'other': analyser unverified.",
+         "Caller-supplied function values (custom modifiers/humanizers) are not judged; OptionHumanizer (a printing strategy) is outside the type set.", "§5 C20, §4 E3")
+
 NA_REASON = {}
 
 def main():
